@@ -52,10 +52,127 @@ def role_functions(program):
     return roles
 
 
+def canonical_parser_setters(program):
+    """The rules address "install the expected-token set" and "remember the opened bracket" as two small methods of Parser.  When a
+    tree has those two helpers written out at their call sites (`self.__expected = ("a", "b")`, `stack.append((t, v))`) the model
+    is brought back to the helper form: the assignments become calls of a synthesised setter with the same effect."""
+    P = program.module("parser").classes.get("Parser")
+    if P is None or "parse" not in P.methods:
+        return 0
+    from .proles import discover_parser_methods
+    pm = {n.lstrip("_"): f for n, f in P.methods.items()}
+    discover_parser_methods(P, pm)
+    parse = P.methods["parse"]
+    sn = parse.params[0]
+    n = 0
+    src_mod = program.module("parser")
+    if "set_expected" not in pm:
+        # the attribute the current token type is tested against in parse()
+        attr = None
+        for c in ast.walk(parse.node):
+            if isinstance(c, ast.Compare) and len(c.ops) == 1 and isinstance(c.ops[0], (ast.In, ast.NotIn)) and isinstance(c.comparators[0], ast.Attribute) \
+                    and isinstance(c.comparators[0].value, ast.Name) and c.comparators[0].value.id == sn:
+                attr = c.comparators[0].attr
+        if attr is not None:
+            name = "__set_expected"
+            for f in P.methods.values():
+                if f.name in ("__init__",) or f is pm.get("reset_parser"):
+                    continue
+
+                class T(ast.NodeTransformer):
+                    def visit_FunctionDef(self, node):
+                        if node is f.node:
+                            self.generic_visit(node)
+                        return node
+
+                    def visit_Assign(self, a):
+                        if len(a.targets) == 1 and isinstance(a.targets[0], ast.Attribute) and a.targets[0].attr == attr \
+                                and isinstance(a.targets[0].value, ast.Name) and isinstance(a.value, ast.Tuple):
+                            call = ast.Call(func=ast.Attribute(value=ast.Name(id=a.targets[0].value.id, ctx=ast.Load()), attr=name, ctx=ast.Load()),
+                                            args=list(a.value.elts), keywords=[])
+                            new = ast.Expr(value=call)
+                            for x in ast.walk(new):
+                                if isinstance(x, (ast.stmt, ast.expr)) and not hasattr(x, "lineno"):
+                                    ast.copy_location(x, a)
+                            nonlocal_count[0] += 1
+                            return new
+                        return a
+                nonlocal_count = [0]
+                T().visit(f.node)
+                if nonlocal_count[0]:
+                    n += nonlocal_count[0]
+                    inline.relink(f.node, getattr(f.node, "_parent", None))
+            if n:
+                from sa.model import Func
+                synth = ast.parse("def %s(self, *args):\n    self.%s = args\n" % (name, attr)).body[0]
+                synth.lineno = P.node.lineno
+                for x in ast.walk(synth):
+                    if hasattr(x, "lineno"):
+                        x.lineno = P.node.lineno
+                P.node.body.append(synth)
+                inline.relink(synth, P.node)
+                P.methods[name] = Func(synth, src_mod, cls=P)
+    if "push_expected_bracket" not in pm:
+        pop = pm.get("pop_expected_bracket")
+        stack = None
+        if pop is not None:
+            for c in ast.walk(pop.node):
+                if isinstance(c, ast.Call) and isinstance(c.func, ast.Attribute) and c.func.attr == "pop" and isinstance(c.func.value, ast.Attribute):
+                    stack = c.func.value.attr
+        if stack is not None:
+            name = "__push_expected_bracket"
+            m = 0
+            for f in P.methods.values():
+                if f is pop:
+                    continue
+                cnt = [0]
+
+                class U(ast.NodeTransformer):
+                    def visit_FunctionDef(self, node):
+                        if node is f.node:
+                            self.generic_visit(node)
+                        return node
+
+                    def visit_Call(self, c):
+                        self.generic_visit(c)
+                        if isinstance(c.func, ast.Attribute) and c.func.attr == "append" and isinstance(c.func.value, ast.Attribute) \
+                                and c.func.value.attr == stack and isinstance(c.func.value.value, ast.Name) and len(c.args) == 1 \
+                                and isinstance(c.args[0], ast.Tuple) and len(c.args[0].elts) == 2:
+                            new = ast.Call(func=ast.Attribute(value=ast.Name(id=c.func.value.value.id, ctx=ast.Load()), attr=name, ctx=ast.Load()),
+                                           args=list(c.args[0].elts), keywords=[])
+                            for x in ast.walk(new):
+                                if isinstance(x, ast.expr) and not hasattr(x, "lineno"):
+                                    ast.copy_location(x, c)
+                            cnt[0] += 1
+                            return new
+                        return c
+                U().visit(f.node)
+                if cnt[0]:
+                    m += cnt[0]
+                    inline.relink(f.node, getattr(f.node, "_parent", None))
+            if m:
+                from sa.model import Func
+                synth = ast.parse("def %s(self, ttype, tvalue):\n    self.%s.append((ttype, tvalue))\n" % (name, stack)).body[0]
+                for x in ast.walk(synth):
+                    if hasattr(x, "lineno"):
+                        x.lineno = P.node.lineno
+                P.node.body.append(synth)
+                inline.relink(synth, P.node)
+                P.methods[name] = Func(synth, src_mod, cls=P)
+                n += m
+    if n:
+        program._allfuncs = None
+    return n
+
+
 def normalise(program):
     known = _known()
+    try:
+        setters = canonical_parser_setters(program)
+    except Exception:
+        setters = 0
     roles = role_functions(program)
-    stats = {"inlined_call_sites": 0, "helpers": {}, "propagated_uses": 0}
+    stats = {"inlined_call_sites": 0, "helpers": {}, "propagated_uses": 0, "constant_reads_inlined": 0}
 
     def single_expression(h):
         body = list(h.node.body)
@@ -74,6 +191,11 @@ def normalise(program):
         scope = h.cls.name if h.cls is not None else "<module>"
         if nm in known.get(h.module.name, {}).get(scope, []):
             return False
+        # a known function that only changed its place or visibility (method <-> module function, __x <-> _x) keeps its role
+        stripped = nm.lstrip("_")
+        for sc, names in known.get(h.module.name, {}).items():
+            if sc != "<assigned>" and any(k.lstrip("_") == stripped for k in names):
+                return False
         if h.cls is not None and nm.endswith("_authentication"):
             return False  # SASL mechanisms are selected by name at run time
         return True
@@ -81,6 +203,12 @@ def normalise(program):
     def resolve(call, caller):
         fn = call.func
         h = None
+        if caller is None or not hasattr(caller, "module"):
+            # class-level / module-level expression: only plain function names of that module
+            mod = caller
+            if isinstance(fn, ast.Name) and mod is not None:
+                h = mod.funcs.get(fn.id)
+            return h if is_unknown_helper(h) else None
         if isinstance(fn, ast.Attribute) and isinstance(fn.value, ast.Name) and caller.cls is not None:
             if caller.params and fn.value.id == caller.params[0] or fn.value.id == caller.cls.name:
                 for c in program.mro(caller.cls):
@@ -91,6 +219,44 @@ def normalise(program):
             h = caller.module.funcs.get(fn.id)
         return h if is_unknown_helper(h) else None
 
+    # module-level constants the rule set does not know (literals moved out of the code) are put back where they are read
+    stats["constant_reads_inlined"] = 0
+    for m in program.modules.values():
+        kn = set(known.get(m.name, {}).get("<assigned>", []))
+        try:
+            stats["constant_reads_inlined"] += inline.inline_constants(m, kn)
+        except Exception:
+            continue
+        # class-level bindings may have been rewritten: refresh the model's views of them
+        for c in m.classes.values():
+            for st in c.node.body:
+                if isinstance(st, ast.Assign):
+                    for t in st.targets:
+                        if isinstance(t, ast.Name):
+                            c.attrs[t.id] = st.value
+                elif isinstance(st, ast.AnnAssign) and isinstance(st.target, ast.Name) and st.value is not None:
+                    c.attrs[st.target.id] = st.value
+        for st in m.tree.body:
+            if isinstance(st, ast.Assign):
+                for t in st.targets:
+                    if isinstance(t, ast.Name):
+                        m.assigns[t.id] = st.value
+
+    stats["dispatch_tables_expanded"] = 0
+    for m in program.modules.values():
+        for f in list(m.funcs.values()) + [f for c in m.classes.values() for f in c.methods.values()]:
+            try:
+                stats["dispatch_tables_expanded"] += inline.devirtualise(f.node)
+            except Exception:
+                continue
+    stats["walrus_hoisted"] = 0
+    for m in program.modules.values():
+        for f in list(m.funcs.values()) + [f for c in m.classes.values() for f in c.methods.values()]:
+            try:
+                stats["walrus_hoisted"] += inline.hoist_walrus(f.node)
+            except Exception:
+                continue
+
     inl = inline.Inliner(resolve)
     touched = []
     for m in program.modules.values():
@@ -100,6 +266,26 @@ def normalise(program):
             inl.run(f)
             if inl.count != before:
                 touched.append(f)
+    for m in program.modules.values():
+        for c in m.classes.values():
+            for st in c.node.body:
+                if isinstance(st, (ast.Assign, ast.AnnAssign)) and st.value is not None:
+                    new = inl.expressions_in(st.value, None, m)
+                    if new is not st.value:
+                        st.value = new
+                    inline.relink(st, c.node)
+                    for t in (st.targets if isinstance(st, ast.Assign) else [st.target]):
+                        if isinstance(t, ast.Name):
+                            c.attrs[t.id] = st.value
+        for st in m.tree.body:
+            if isinstance(st, (ast.Assign, ast.AnnAssign)) and st.value is not None:
+                new = inl.expressions_in(st.value, None, m)
+                if new is not st.value:
+                    st.value = new
+                inline.relink(st, m.tree)
+                for t in (st.targets if isinstance(st, ast.Assign) else [st.target]):
+                    if isinstance(t, ast.Name):
+                        m.assigns[t.id] = st.value
     stats["inlined_call_sites"] = inl.count
     stats["helpers"] = dict(inl.inlined)
     for f in touched:
@@ -143,5 +329,6 @@ def normalise(program):
             stats["propagated_uses"] += inline.propagate_paths(f)
         except Exception:
             continue
+    stats["setter_calls_restored"] = setters
     program.normalised = stats
     return stats
